@@ -321,3 +321,25 @@ Example c02_code_example :
   let R := new_resolver U_F1 in gen_pick R 3 [("c", 4)] = Err /\ gen_disqualify_conflicts R 4 [] = Ok [] /\
   gen_conflicting_version (resolve_constraint "so:x=1") (cook_pkg (wp "p" "1" [] ["so:x=1"] [])) = Some true.
 Proof. vm_compute. repeat split; reflexivity. Qed.
+
+(* session 7: constrain is translated too (Generated/C02Resolver.v gen_constrain: the range over the list, the
+   "!" branch, the early exits on versionAny / unknown name, the parse error, both provider branches with their
+   disqualifications) and IS the model's constrain *)
+Theorem c02_translated_constrain_is_the_model : forall R cs dq, gen_constrain R cs dq = constrain R cs dq.
+Proof. exact gen_constrain_eq. Qed.
+Print Assumptions c02_translated_constrain_is_the_model.
+(* what the translated code guarantees: the set only grows; every provider failing a versioned positive entry
+   is in it; so is everything a conflict entry excludes *)
+Theorem c02_code_constrain_covers : forall R cs dq dq', gen_constrain R cs dq = Ok dq' ->
+  incl dq dq' /\
+  (forall d providers req j, In d cs -> d_neg d = None -> (s_dep (d_pos d) =? dep_versionAny)%Z = false ->
+     alookup (s_name (d_pos d)) (r_names R) = Some providers -> s_req (d_pos d) = Some req ->
+     In j providers -> constrain_provider (d_pos d) req (getp R j) = true -> In j dq') /\
+  (forall d c j, In d cs -> d_neg d = Some c -> entry_excludes R c j -> In j dq').
+Proof. exact code_constrain_covers. Qed.
+Print Assumptions c02_code_constrain_covers.
+Example c02_code_constrain_example :
+  let R := new_resolver U_F1 in
+  gen_constrain R (List.map cook_dep ["c<4"; "!a"; "b"; "nosuch>1"]) [] = Ok [0; 4] /\
+  gen_constrain R (List.map cook_dep ["c>abc"]) [] = Err.
+Proof. vm_compute. split; reflexivity. Qed.
